@@ -1452,6 +1452,10 @@ impl SimRing {
         self.set_sq_flags(1);
         true
     }
+    /// Zero a submission slot (harness set-up only).
+    pub fn clear_sqe(&mut self, index: u32) {
+        unsafe { std::ptr::write_bytes(self.sqes.add((index & (self.sq_entries - 1)) as usize), 0, 1) }
+    }
     pub fn sqe_at(&self, index: u32) -> Sqe {
         unsafe { *self.sqes.add((index & (self.sq_entries - 1)) as usize) }
     }
